@@ -9,17 +9,34 @@ import TdModel.Gen.C17
 namespace TdModel.C17
 open TdModel TdModel.Codec
 
-/-- The codec configuration read from the source on this run. -/
+/-- The codec configuration of this run: every function field is the translation of the Go
+expression found in the current source (see the doc comments in `TdModel/Gen/C17.lean`), applied to
+the unsigned view of its arguments. -/
 def cfg : Cfg where
-  maxMsg := Facts.C17.maxMessageSize
-  abrThrW := Facts.C17.abrThrW
-  abrThrR := Facts.C17.abrThrR
+  lenRejects := fun n e => Facts.C17.lenRejects n e
+  outRejects := fun l => Facts.C17.outRejects l
+  misaligned := fun l => Facts.C17.misaligned l 4
+  isCode := fun l => !(Facts.C17.notCode l)
+  abrWords := fun l => (Facts.C17.abrWords l).toNat
+  abrShort := fun w => Facts.C17.abrShort w
   abrMark := Facts.C17.abrMark
-  abrGuard := Facts.C17.abrGuard
-  fullGuard := Facts.C17.fullGuard
-  fullMin := Facts.C17.fullMin
-  fullOver := Facts.C17.fullOver
-  padOver := Facts.C17.padOver
+  abrLong := fun b0 => Facts.C17.abrLong b0
+  abrRejects := fun n => Facts.C17.abrRejects n
+  abrBytes := fun n => Facts.C17.abrBytes n
+  fullRejects := fun n => Facts.C17.fullRejects n
+  fullEnvelope := Facts.C17.fullOver
+  fullExpand := fun n => Facts.C17.fullExpand n
+  fullInnerLo := fun n => Facts.C17.fullInnerLo n
+  fullInnerHi := fun n => Facts.C17.fullInnerHi n
+  fullPayload := fun n => Facts.C17.fullPayload n
+  fullCrcLo := fun n => Facts.C17.fullCrcLo n
+  fullCrcHi := fun n => Facts.C17.fullCrcHi n
+  fullCopyLo := fun n => Facts.C17.fullCopyLo n
+  fullCopyHi := fun n => Facts.C17.fullCopyHi n
+  fullWire := fun l => (Facts.C17.fullWire l).toNat
+  padEnvelope := Facts.C17.padOver
+  padOf := fun last => (Facts.C17.padOf last).toNat
+  padStrip := fun n => (Facts.C17.padStrip n).toNat
   tagAbridged := Facts.C17.tagAbridged
   tagIntermediate := Facts.C17.tagIntermediate
   tagPadded := Facts.C17.tagPadded
